@@ -18,3 +18,6 @@ func verifPoint(point string) {
 func VerifQueueLens[T any](d *Dials[T]) (cb int, ctl int) {
 	return len(d.cbch), len(d.monCtl)
 }
+
+// VerifSerial exposes the serial inside an opaque CfgSerial.
+func VerifSerial[T any](tok CfgSerial[T]) uint64 { return tok.s }
